@@ -7,7 +7,8 @@ use crate::exec::Violation;
 use crate::mem::{Mem, UNTOUCHED};
 use crate::refm::{place, RefModel};
 use embedded_graphics_core::draw_target::DrawTarget;
-use embedded_graphics_core::geometry::{OriginDimensions, Size};
+use embedded_graphics_core::geometry::{Dimensions, Point, Size};
+use embedded_graphics_core::primitives::Rectangle;
 use embedded_graphics_core::pixelcolor::RgbColor;
 use embedded_graphics_core::Pixel;
 
@@ -164,6 +165,9 @@ pub fn display_oracle(case: &Case, idx: i64, cfg: &Config, rm: &RefModel, c: &Co
 /// A draw target that is not a display at all: w x h cells, implements only `draw_iter`
 /// and clips there - so TestImage may rely on nothing but the target's clipping.
 pub struct PlainTarget<C> {
+    /// top-left corner of the bounding box (a draw target need not start at the origin)
+    pub ox: i32,
+    pub oy: i32,
     pub w: u32,
     pub h: u32,
     pub cells: Vec<u32>,
@@ -171,9 +175,9 @@ pub struct PlainTarget<C> {
     pub to_raw: fn(C) -> u32,
 }
 
-impl<C: RgbColor> OriginDimensions for PlainTarget<C> {
-    fn size(&self) -> Size {
-        Size::new(self.w, self.h)
+impl<C: RgbColor> Dimensions for PlainTarget<C> {
+    fn bounding_box(&self) -> Rectangle {
+        Rectangle::new(Point::new(self.ox, self.oy), Size::new(self.w, self.h))
     }
 }
 
@@ -185,8 +189,10 @@ impl<C: RgbColor> DrawTarget for PlainTarget<C> {
         I: IntoIterator<Item = Pixel<C>>,
     {
         for Pixel(p, c) in pixels {
-            if p.x >= 0 && p.y >= 0 && (p.x as u32) < self.w && (p.y as u32) < self.h {
-                self.cells[(p.y as u32 * self.w + p.x as u32) as usize] = (self.to_raw)(c);
+            let x = p.x as i64 - self.ox as i64;
+            let y = p.y as i64 - self.oy as i64;
+            if x >= 0 && y >= 0 && x < self.w as i64 && y < self.h as i64 {
+                self.cells[(y as u32 * self.w + x as u32) as usize] = (self.to_raw)(c);
             } else {
                 self.discarded += 1;
             }
